@@ -142,6 +142,14 @@ package main
 //@   assert at call broadcastToSessions [C09] only_sender: forall u types.Uid :: u != types.ParseUserId(msg.AsUser) ==> (u in t.perUser) == old(u in t.perUser) && t.perUser[u].readID == old(t.perUser[u].readID) && t.perUser[u].recvID == old(t.perUser[u].recvID)
 //@   ensures [C09] future_dropped: old(msg.Note.SeqId > t.lastID) ==> (forall s int :: outCount[s] == old(outCount[s])) && (forall u types.Uid :: (u in t.perUser) == old(u in t.perUser) && t.perUser[u].readID == old(t.perUser[u].readID) && t.perUser[u].recvID == old(t.perUser[u].recvID))
 //@   ensures [C09] needs_read: old(msg.Note.What == "read" || msg.Note.What == "recv") && old((effMode(t, types.ParseUserId(msg.AsUser)) & types.ModeRead) == 0) ==> (forall s int :: outCount[s] == old(outCount[s])) && (forall u types.Uid :: t.perUser[u].readID == old(t.perUser[u].readID) && t.perUser[u].recvID == old(t.perUser[u].recvID))
+//@   ensures [C09] deleted_dropped: old(msg.Note.What == "read" || msg.Note.What == "recv" || msg.Note.What == "kp" || msg.Note.What == "kpa" || msg.Note.What == "kpv") && old(t.perUser[types.ParseUserId(msg.AsUser)].deleted) ==> (forall s int :: outCount[s] == old(outCount[s])) && (forall u types.Uid :: t.perUser[u].readID == old(t.perUser[u].readID) && t.perUser[u].recvID == old(t.perUser[u].recvID))
 //@   assert at call Update [C09] recv_persisted: pud.recvID != old(t.perUser[types.ParseUserId(msg.AsUser)].recvID) ==> recv == pud.recvID
 //@   assert at call Update [C09] read_persisted: pud.readID != old(t.perUser[types.ParseUserId(msg.AsUser)].readID) ==> read == pud.readID
+//@   modifies *
+
+// What is reported: 0 <= read <= recv <= seq in every description sent out.
+//@ func (t *Topic) replyGetDesc(sess *Session, asUid types.Uid, asChan bool, opts *MsgGetOpts, msg *ClientComMessage) (err error)
+//@   requires [C09] t != nil && sess != nil && msg != nil
+//@   requires [C09] t.lastID >= 0 && ((asUid in t.perUser) ==> marksOK(t, asUid))
+//@   assert at call queueOut [C09] reported_marks: $1 != nil && $1.Meta != nil && $1.Meta.Desc != nil ==> 0 <= $1.Meta.Desc.ReadSeqId && $1.Meta.Desc.ReadSeqId <= $1.Meta.Desc.RecvSeqId && $1.Meta.Desc.RecvSeqId <= $1.Meta.Desc.SeqId
 //@   modifies *
